@@ -9,6 +9,7 @@ from hxv.lib import Result, Violation, build_indicator, first_diff, mk_candles, 
 from hxv.runner import Shard
 
 PROP = "C14"
+FUZZ = {"shards": ["hexital-0", "indicator-0"], "procs_per_shard": 2, "runs": 60000, "seconds": 300}
 RULE = (
     "case = a maintenance program over a Hexital with 1-4 distinct members (or a standalone indicator): operations append(chunk), "
     "calculate([name]), purge([name]), recalculate([name]), calculate_index([name], +i / -k) only on members whose readings are "
